@@ -11,8 +11,8 @@ LMAX = {"quick": 3, "thorough": 5}
 SHARDS = {"quick": 8, "thorough": 14}
 NDOC = {"quick": 400, "thorough": 25000}
 EXHAUSTIVE = {"quick": True, "thorough": True}
-RULE = ("two focus alphabets (short-form disambiguation: 10 kinds; id./placeholder/roman pages: 12 kinds) enumerated to length 4 (quick) / 5 (thorough); EXHAUSTIVE over all sequences of length <= L (L=3 quick, 5 thorough) over the 21-kind alphabet of "
-        "C06 (real extracted objects), plus random sequences of length 4..9 over 43 kinds that add the pin "
+RULE = ("two focus alphabets (short-form disambiguation: 10 kinds; id./placeholder/roman/nominative pages: 14 kinds) enumerated to length 4 (quick) / 5 (thorough); EXHAUSTIVE over all sequences of length <= L (L=3 quick, 5 thorough) over the 21-kind alphabet of "
+        "C06 (real extracted objects), plus random sequences of length 4..9 over 45 kinds that add the pin "
         "window boundaries (page-1, page, page+MAX, page+MAX+1, page+100000, '*10', roman, paragraph pins), "
         "a second named case, a variation-spelled short form and a name-less duplicate, plus lists extracted "
         "from generated ambiguous multi-case documents; oracle = reference model written from the statement "
@@ -71,6 +71,9 @@ def run_shard(spec, rec):
         check_seq(R.instantiate(protos, combo), dict(sequence=list(combo)), rec, resolve_citations, maxp)
         rec.count("focus_sequences")
         rec.nontrivial(combo)
+    for combo in R.long_lists(protos, random.Random(spec["seed"] + 31), 2):
+        check_seq(R.instantiate(protos, combo), dict(sequence=list(combo)), rec, resolve_citations, maxp)
+        rec.count("long_lists")
     rng = random.Random(spec["seed"])
     allk = list(protos)
     fulls = [k for k in allk if k.startswith("full")]
